@@ -199,6 +199,33 @@ def slot_stability(P, R):
     R.floor('C07.WMC.3', 3)
 
 
+def release_after_recheck(P, R, rule='C07.MPT.6'):
+    """A reply is settled in two steps: the module records it, then the core re-checks the request - and that re-check
+    may ask the module about its services again (a class rule's xreply_ok).  A service slot that a reload has retired is
+    released when its last awaited answer is in; doing that BEFORE the re-check makes the answer to "did that service
+    say OK?" depend on whether some other client still holds the slot.  On no path of a reply handler is the re-check
+    reached after a call that can release a slot."""
+    unit = 'modules/iauth_xquery.c'
+    releasers = {f.key for f in P.unit_fns(unit) for s in f.stores()
+                 if s.ev['k'] == 'store' and (s.ev['lhs'] or {}).get('k') == 'idx' and on_path(s.ev['lhs'], 'vec') and root_var(s.ev['lhs']) is not None
+                 and root_var(s.ev['lhs'])['name'] == 'iauth_xquery_services' and const_of(s.ev.get('rhs')) == 0}
+    if not releasers:
+        raise AnalysisBroken('no function releases a service slot')
+    chk = P.need_fn('iauth_check_request')
+    n = 0
+    for f in P.unit_fns(unit):
+        rel = [s for s in f.calls() if any(t.key in releasers for t in P.callees(s, False))]
+        chks = [s for s in f.calls() if chk in P.callees(s, False)]
+        if not rel or not chks:
+            continue
+        for r_ in rel:
+            after = f.reach([e.dst for e in f.out[r_.bid]])
+            late = [c for c in chks if c.bid in after or (c.bid == r_.bid and c.idx > r_.idx)]
+            n += 1
+            R.ob(rule, not late, r_, 'in %s the call that may release a service slot comes after the request has been re-checked' % f.name, key='release-after-recheck:%s' % f.name)
+    R.floor(rule, 1, 'slot releases in functions that re-check a request')
+
+
 def index_consistency(P, R):
     n = 0
     for f in P.unit_fns('modules/iauth_xquery.c'):
@@ -309,6 +336,7 @@ def run(P, R, tier):
     storage_audit(P, R)
     slot_stability(P, R)
     index_consistency(P, R)
+    release_after_recheck(P, R)
     keyed_state(P, R)
     junk_inert(P, R, 'C07.MPT.1')
     holds.refs_discipline(P, R, 'C07.WMC.4')
